@@ -151,6 +151,15 @@ def runFilter (ts : List String) : String :=
       | _ => "bad-request"
   | [] => "bad-request"
 
+/-- `val <term>`: what the `Value` API answers about one value (value.go's predicates and conversions) -/
+def runVal (ts : List String) : String :=
+  match decodeVal (ts.length + 1) ts with
+  | some (v, []) =>
+    let b (x : Bool) : String := if x then "1" else "0"
+    let h := Bytes.toHex v.toS
+    s!"{b v.isString}{b v.isBool}{b v.isFloat}{b v.isInteger}{b v.isNumber}{b v.isNil}{b v.isTrue}{b v.canSlice} {v.len} {if h = "" then "-" else h} {v.toInt.toInt} {v.toFloat.toBits}"
+  | _ => "bad-request"
+
 /-- `bans {T|F|C <namehex>}`: a ban/create history; answers the success flags -/
 def runBans (ts : List String) : String :=
   let rec go : List String → List BanOp → Option (List BanOp)
